@@ -29,6 +29,8 @@ def run(chk):
                                "at every return the state must hold the accepted iterate (join = displaced)")
     chk.rule("C19-D2.cap", "every objective evaluation in a loop is dominated, within the same iteration, by a test of performed_iterations against max_iterations and followed by exactly one increment; the outer loops test the cap")
     chk.rule("C19-D3.accept", "state.x is written only by swaps; the accepting swap with xStep executes only on the exit edge of the descent test, xStep being the output of proj")
+    chk.rule("C19-D4.nan", "the line search accepts a trial point when its loop ends; the loop condition is the negation of the descent inequality (not (lhs <= rhs)), so that an "
+                           "objective value that is NaN - every ordered comparison with it is false - keeps the search going instead of being accepted")
     chk.rule("C19-D3.stepsize", "within one line-search iteration every read of the trial stepsize precedes its reduction; the reduction is compensated by the inverse factor on loop exit before any further use")
 
     ACC, DIS = "accepted", "displaced"
@@ -132,6 +134,18 @@ def run(chk):
     dos = [d for d in walk(fn.body) if d.get("k") == "DoStmt"]
     chk.floor("C19-D3.stepsize", len(dos), 1, "line-search loops")
     for d in dos:
+        # the trial is accepted when the loop ends: that has to follow from a comparison that is TRUE (a NaN objective value makes every comparison false)
+        cnd = strip(d.get("cond"))
+        pos = False
+        shape = txt(cnd)[:80] if cnd is not None else "?"
+        if cnd is not None and cnd.get("k") == "UnaryOperator" and cnd.get("op") == "!":
+            inner = strip(cnd["c"][0])
+            while inner is not None and inner.get("k") == "ParenExpr":
+                inner = strip(inner["c"][0])
+            pos = inner is not None and inner.get("k") == "BinaryOperator" and inner.get("op") in ("<=", "<", ">=", ">")
+        chk.ob("C19-D4.nan", fn.name, "the line search ends only on a comparison that holds", pos, fn.loc(d),
+               "" if pos else "the loop repeats while `%s`: when the objective returns NaN this is false and the trial is accepted without passing the descent test" % shape,
+               "while (not (lhs <= rhs + tolerance))")
         body = d["body"]
         reds = [n for n in walk(body) if n.get("k") == "CompoundAssignOperator" and n.get("op") == "/=" and txt(strip(n["c"][0])) == STEP]
         chk.ob("C19-D3.stepsize", fn.name, "one reduction of the trial stepsize per iteration", len(reds) == 1, fn.loc(d), "%d" % len(reds))
